@@ -368,4 +368,207 @@ theorem jukescantor_spec' (n1 n2 K : Nat) (hK : 2 ≤ K) (hpos : 0 < n1 + n2) :
       · rw [hx1]; simp
       · rw [hD']; simp
 
+/-! ### empty sequences -/
+
+theorem nmSpec_le_left (m : Mode) (a b : Row) : nmSpec m a b ≤ lenSpec m a := by
+  induction a generalizing b with
+  | nil => cases b <;> simp [nmSpec, lenSpec]
+  | cons x xs ih =>
+    cases b with
+    | nil => simp [nmSpec]
+    | cons y ys =>
+      have := ih ys
+      unfold nmSpec lenSpec at this ⊢
+      simp only [List.zip_cons_cons, List.countP_cons]
+      cases m.isRes x <;> cases m.isRes y <;> simp <;> omega
+
+/-- PairMatch is 0 as soon as one of the two aligned sequences has no residue -/
+theorem pmatch_empty (m : Mode) (a b : Row) (hl : a.length = b.length) (h : lenSpec m a = 0 ∨ lenSpec m b = 0) :
+    pmatch (α := ℚ) m a b = 0 := by
+  have hnm : nmSpec m a b = 0 := by
+    rcases h with h | h
+    · have := nmSpec_le_left m a b; omega
+    · have := nmSpec_le_left m b a; rw [nmSpec_comm] at this; omega
+  rw [pmatch_eq m a b hl]; unfold pmSpec
+  split
+  · rfl
+  · rw [hnm]; simp
+
+/-- no column where both cells qualify ⇒ the counts stay as they were -/
+theorem jcCounts_no_ok (j : JCMode) (a b : Row) (hl : a.length = b.length) (h : ∀ x ∈ a, j.ok x = false) (n1 n2 : Nat) :
+    jcCounts j a b n1 n2 = some (n1, n2) := by
+  induction a generalizing b with
+  | nil => cases b with
+    | nil => rfl
+    | cons y ys => simp at hl
+  | cons x xs ih =>
+    cases b with
+    | nil => simp at hl
+    | cons y ys =>
+      simp only [jcCounts]
+      rw [h x (by simp)]
+      simp only [Bool.false_and, Bool.false_eq_true, if_false]
+      exact ih ys (by simpa using hl) (fun z hz => h z (by simp [hz]))
+
+/-- Jukes-Cantor of an aligned pair one of which has no canonical residue (text: no letter): eslEDIVZERO -/
+theorem jukesCantor_empty {α} [WLog α] (j : JCMode) (K : Nat) (a b : Row) (hl : a.length = b.length)
+    (h : (∀ x ∈ a, j.ok x = false) ∨ (∀ x ∈ b, j.ok x = false)) : jukesCantor (α := α) j K a b = .edivzero := by
+  unfold jukesCantor
+  rcases h with h | h
+  · rw [jcCounts_no_ok j a b hl h]; rfl
+  · rw [jcCounts_comm, jcCounts_no_ok j b a hl.symm h]; rfl
+
+/-- saturation (distance = variance = +∞) exactly when the fraction of identities is at most 1/K -/
+theorem jukescantor_saturated_iff (n1 n2 K : Nat) (hK : 2 ≤ K) (hpos : 0 < n1 + n2) :
+    jukescantor (α := ℝ) n1 n2 K = .saturated ↔ n1 * K ≤ n1 + n2 := by
+  have key : (n1 + n2) * (K - 1) ≤ n2 * K ↔ n1 * K ≤ n1 + n2 := by
+    obtain ⟨k, rfl⟩ : ∃ k, K = k + 1 := ⟨K - 1, by omega⟩
+    simp only [Nat.add_sub_cancel]
+    constructor <;> intro h <;> nlinarith
+  rw [← key]
+  constructor
+  · intro h
+    by_contra hc
+    obtain ⟨d, v, hdv, _⟩ := (jukescantor_spec' n1 n2 K hK hpos).2 (by omega)
+    rw [hdv] at h; cases h
+  · exact (jukescantor_spec' n1 n2 K hK hpos).1
+
+/-! ### esl_dst_{C,X}DiffMx -/
+
+theorem flatMap_range_getElem? {β : Type} (n : Nat) (f : Nat → Nat → β) (k i j : Nat) (hi : i < k) (hj : j < n) :
+    ((List.range k).flatMap fun a => (List.range n).map fun b => f a b)[i * n + j]? = some (f i j) := by
+  induction k generalizing i f with
+  | zero => omega
+  | succ k ih =>
+    rw [List.range_succ_eq_map, List.flatMap_cons]
+    by_cases h0 : i = 0
+    · subst h0
+      rw [List.getElem?_append_left (by simpa using hj)]
+      simp [hj]
+    · obtain ⟨i', rfl⟩ : ∃ i', i = i' + 1 := ⟨i - 1, by omega⟩
+      rw [List.getElem?_append_right (by simp; nlinarith)]
+      simp only [List.length_map, List.length_range, List.flatMap_map]
+      have e : (i' + 1) * n + j - n = i' * n + j := by rw [Nat.succ_mul]; omega
+      rw [e]
+      simpa [Function.comp_def] using ih (fun a b => f (a + 1) b) i' (by omega)
+
+theorem diffMx_entry (m : Mode) (rows : List Row) (i j : Nat) (hi : i < rows.length) (hj : j < rows.length) :
+    (diffMx (α := ℚ) m rows).getD (i * rows.length + j) 0 =
+      if i = j then 0 else 1 - pid (α := ℚ) m (rows.getD i []) (rows.getD j []) := by
+  unfold diffMx
+  rw [Array.getD_eq_getD_getElem?, List.getElem?_toArray]
+  rw [flatMap_range_getElem? rows.length _ rows.length i j hi hj]
+  simp only [Option.getD_some, beq_iff_eq, ofNat_rat, Nat.cast_zero, Nat.cast_one]
+  by_cases h : i = j
+  · simp [h]
+  · simp only [h, if_false]
+    split
+    · rfl
+    · rw [pid_comm]
+
+theorem diffMx_symm_range (m : Mode) (rows : List Row) (i j : Nat) (hi : i < rows.length) (hj : j < rows.length) :
+    (diffMx (α := ℚ) m rows).getD (i * rows.length + j) 0 = (diffMx (α := ℚ) m rows).getD (j * rows.length + i) 0 ∧
+    0 ≤ (diffMx (α := ℚ) m rows).getD (i * rows.length + j) 0 ∧ (diffMx (α := ℚ) m rows).getD (i * rows.length + j) 0 ≤ 1 := by
+  rw [diffMx_entry m rows i j hi hj, diffMx_entry m rows j i hj hi]
+  have hr := pid_range' m (rows.getD i []) (rows.getD j [])
+  by_cases h : i = j
+  · subst h; simp
+  · have h' : ¬ j = i := fun e => h e.symm
+    simp only [h, h', if_false]
+    rw [pid_comm m (rows.getD j [])]
+    exact ⟨rfl, by linarith [hr.2], by linarith [hr.1]⟩
+
+/-! ### esl_dst_XAvgConnectivity -/
+
+theorem connOver_fold (f : Row → Row → ℚ) (thresh : ℚ) (rows : List Row) (pairs : List (Nat × Nat)) (init : ℚ × ℚ) :
+    pairs.foldl (fun (acc : ℚ × ℚ) p =>
+      (acc.1 + f (rows.getD p.1 []) (rows.getD p.2 []),
+       if WNum.ltb thresh (f (rows.getD p.1 []) (rows.getD p.2 [])) then acc.2 + WNum.ofNat 1 else acc.2)) init =
+    (init.1 + (pairs.map fun p => f (rows.getD p.1 []) (rows.getD p.2 [])).sum,
+     init.2 + (pairs.countP fun p => decide (thresh < f (rows.getD p.1 []) (rows.getD p.2 [])) : Nat)) := by
+  induction pairs generalizing init with
+  | nil => simp
+  | cons p ps ih =>
+    rw [List.foldl_cons, ih]
+    simp only [List.map_cons, List.sum_cons, List.countP_cons, ltb_rat, ofNat_rat, Nat.cast_one]
+    by_cases h : thresh < f (rows.getD p.1 []) (rows.getD p.2 [])
+    · simp only [h, decide_true, if_true]
+      refine Prod.ext (by ring) ?_
+      push_cast; ring
+    · simp only [h, decide_false, Bool.false_eq_true, if_false]
+      refine Prod.ext (by ring) ?_
+      push_cast; ring
+
+/-- (avgid, avgconn) over a pair list: the mean identity and the fraction of pairs strictly above the threshold -/
+theorem connOver_eq (f : Row → Row → ℚ) (thresh : ℚ) (rows : List Row) (pairs : List (Nat × Nat)) (denom : Nat) :
+    connOver f thresh rows pairs denom =
+      ((pairs.map fun p => f (rows.getD p.1 []) (rows.getD p.2 [])).sum / (denom : ℚ),
+       ((pairs.countP fun p => decide (thresh < f (rows.getD p.1 []) (rows.getD p.2 [])) : Nat) : ℚ) / (denom : ℚ)) := by
+  unfold connOver
+  have := connOver_fold f thresh rows pairs (WNum.ofNat 0, WNum.ofNat 0)
+  simp only [ofNat_rat, Nat.cast_zero, zero_add] at this ⊢
+  rw [this]
+
+/-- the identity half of `esl_dst_XAvgConnectivity` is `esl_dst_XAverageId`; the connectivity half lies in [0,1] -/
+theorem avgConnectivity_spec (f : Row → Row → ℚ) (rows : List Row) (maxc : Nat) (thresh : ℚ) (sampled : List (Nat × Nat))
+    (hs : sampled.length = maxc) :
+    (avgConnectivity f rows maxc thresh sampled).1 = average f rows maxc sampled ∧
+    0 ≤ (avgConnectivity f rows maxc thresh sampled).2 ∧ (avgConnectivity f rows maxc thresh sampled).2 ≤ 1 := by
+  unfold avgConnectivity average
+  simp only []
+  split
+  · simp
+  · split
+    · rw [connOver_eq, averageOver_eq]
+      refine ⟨rfl, by positivity, ?_⟩
+      rw [← allPairs_length rows.length]
+      apply div_le_one_of_le₀ _ (by positivity)
+      exact_mod_cast List.countP_le_length
+    · rw [connOver_eq, averageOver_eq]
+      refine ⟨rfl, by positivity, ?_⟩
+      rw [← hs]
+      apply div_le_one_of_le₀ _ (by positivity)
+      exact_mod_cast List.countP_le_length
+
+/-- exhaustive branch: avgconn = #{i<j : id(i,j) > idthresh} / (N(N−1)/2) -/
+theorem avgConnectivity_exhaustive (f : Row → Row → ℚ) (rows : List Row) (maxc : Nat) (thresh : ℚ) (sampled : List (Nat × Nat))
+    (hN : 2 ≤ rows.length) (hx : rows.length * rows.length ≤ 2 * maxc) :
+    (avgConnectivity f rows maxc thresh sampled).2 =
+      (((allPairs rows.length).countP fun p => decide (thresh < f (rows.getD p.1 []) (rows.getD p.2 [])) : Nat) : ℚ) /
+        ((rows.length * (rows.length - 1) / 2 : Nat) : ℚ) := by
+  unfold avgConnectivity
+  simp only []
+  rw [if_neg (by omega), if_pos ((exhaustive_iff' rows.length maxc hN).mpr hx), connOver_eq]
+
+/-! ### esl_dst_{C,X}JukesCantorMx -/
+
+theorem jcMxEntry_symm (j : JCMode) (K : Nat) (rows : List Row) (a b : Nat) :
+    jcMxEntry (α := ℝ) j K rows a b = jcMxEntry j K rows b a := by
+  unfold jcMxEntry
+  by_cases h : a = b
+  · subst h; rfl
+  · have h' : ¬ b = a := fun e => h e.symm
+    simp only [beq_iff_eq, h, h', if_false]
+    rcases Nat.lt_or_gt_of_ne h with hlt | hlt
+    · rw [if_pos hlt, if_neg (by omega)]
+    · rw [if_neg (by omega), if_pos hlt]
+
+/-- the matrix routine fails iff the distance call of some pair i < j fails; then with that pair's status -/
+theorem jcMxError_none_iff (j : JCMode) (K : Nat) (rows : List Row) :
+    jcMxError (α := ℝ) j K rows = none ↔
+      ∀ a b, a < b → b < rows.length →
+        jukesCantor (α := ℝ) j K (rows.getD a []) (rows.getD b []) ≠ .einval ∧
+        jukesCantor (α := ℝ) j K (rows.getD a []) (rows.getD b []) ≠ .edivzero := by
+  unfold jcMxError
+  rw [List.findSome?_eq_none_iff]
+  constructor
+  · intro h a b hab hb
+    have := h (a, b) (mem_upperPairs.mpr ⟨hab, hb⟩)
+    simp only [] at this
+    cases hjc : jukesCantor (α := ℝ) j K (rows.getD a []) (rows.getD b []) <;> simp_all
+  · intro h p hp
+    obtain ⟨hab, hb⟩ := mem_upperPairs.mp (show (p.1, p.2) ∈ upperPairs rows.length from hp)
+    have := h p.1 p.2 hab hb
+    cases hjc : jukesCantor (α := ℝ) j K (rows.getD p.1 []) (rows.getD p.2 []) <;> simp_all
+
 end EaselModel.Weights
